@@ -844,6 +844,27 @@ def extrawalk_reader_scenario(sc, c, k=0):
     return gen_reader.scenario(sc, d, pwq=pwq)[0]
 
 
+def extrawalk_local_archive(c, k=0):
+    """a field of MC_ExtraWalk as the LOCAL extra field of the middle entry of a three-entry archive (what a front-to-back reader parses);
+    only the two size fields exist in a local header"""
+    import refzip
+    lsent = [f for f in ("us", "cs") if c[f]]
+    lay = []
+    for r in c["recs"]:
+        if r["id"] == "z64":
+            lay.append(("z64", r["nvals"] - len(lsent) - (1 if c["off"] else 0)))
+        elif r["id"] == "aes":
+            lay.append(("aes", r["dlen"]))
+        else:
+            lay.append((0xcafe if r["id"] == "oth" else 0x000a, bytes((5 * j + k) % 251 for j in range(r["dlen"]))))
+    cut = bool(c["recs"]) and c["recs"][-1]["body"] < c["recs"][-1]["dlen"]
+    e = {"name": b"walk/local", "method": (0, 8)[k % 2], "data": b"local extra walk %d " % k * 4, "lx_layout": lay, "lsent": lsent,
+         "lx_tail": bytes([0xfe, 0xca, 0x05][:c["tail"]]), "lx_cut": cut}
+    if lsent:       # the central record carries the same values in its own ZIP64 record
+        e["z64"] = {"usize" if f == "us" else "csize" for f in lsent}
+    return refzip.build({"entries": [{"name": b"walk/before", "method": 8, "data": b"before " * 9}, e, {"name": b"walk/after", "method": 0, "data": b"after"}]})
+
+
 def extrawalk_writer_program(sc, c, central):
     ids = {"oth": 0xbeef, "rsv": 0x000a, "z64": 1, "aes": 0x9901}
     recs = [{"id": ids[r["id"]], "dsz": r["dlen"], "asz": r["body"]} for r in c["recs"]]
@@ -2026,6 +2047,18 @@ def c10(tier):
         for pi, (plan, pcrc) in enumerate(stream_plans(rnd, datas, 3 if tier == "quick" else 10)):
             scs.append({"sc": "r%04d-p%d" % (i, pi), "hex": b.hex(), "plan": plan, "pcrc": pcrc, "under": rnd.choice(SCHED_UNDER),
                         "buf": rnd.choice([1, 7, 4096])})
+    # ExtraWalk.tla at the LOCAL header: every field of the byte-level model (those without an offset value - a local header has none)
+    # as the local extra field of a streamed entry; the front-to-back reader walks it with the same code as the central one
+    mc_extrawalk(rep, wd, mutants=(("aes_no_account", "OnBoundary"), ("skip_declared", "OnBoundary")))
+    xw = [c for c in extrawalk_cases(wd) if not c["off"] and not any(r["id"] == "aes" for r in c["recs"])]
+    rep.notes["extrawalk_local_fields"] = len(xw)
+    if tier == "quick":
+        xw = rnd.sample(xw, min(len(xw), 1200))
+    for i, c in enumerate(xw):
+        b, v = extrawalk_local_archive(c, i)
+        datas = [e["data"] for e in v["entries"]]
+        plan, pcrc = stream_plans(rnd, datas, 1)[0]
+        scs.append({"sc": "xwl%05d" % i, "hex": b.hex(), "plan": plan, "pcrc": pcrc, "under": rnd.choice(SCHED_UNDER), "buf": rnd.choice([1, 7, 4096])})
     run_stream_scenarios(rep, wd, scs, "stream")
     return rep.finish("model_checking",
                       "ZipStream.tla: OnRecordBoundary/InsideEntry/EndAtDirectory/VisitOrder over all entry lists (<= 3 entries, sizes {0,1,4}) and all "
